@@ -101,7 +101,7 @@ def coupling_shape(Ls, bc, dxs):
     return shape
 
 
-def gen_calls(rng, lat, lspec, quick):
+def gen_calls(rng, lat, lspec, quick, nn_only=False):
     """list of high-level calls valid for the lattice `lat` (a real tenpy lattice, used only to read
     sites / index maps; the PRNG decides everything)"""
     N = lat.N_sites
@@ -117,6 +117,10 @@ def gen_calls(rng, lat, lspec, quick):
              'add_coupling_term', 'add_multi_coupling_term', 'add_exp', 'add_exp']
     if finite:
         kinds.append('add_centered')
+    if nn_only:
+        # nearest-neighbour chain with fields: the bond <-> MPO conversions apply
+        kinds = ['add_onsite', 'add_onsite', 'add_onsite_term', 'add_coupling', 'add_coupling', 'add_coupling_term']
+        n_calls = rng.randint(2, 5)
     has_exp = False
     for _ in range(n_calls):
         f = rng.choice(kinds)
@@ -141,6 +145,8 @@ def gen_calls(rng, lat, lspec, quick):
             dx = [rng.randint(-m, m) for m in maxd]
             if all(d == 0 for d in dx) and u1 == u2:
                 dx[0] = 1
+            if nn_only:
+                dx = [rng.choice([1, 1, -1])]
             shape = coupling_shape(Ls, bc, [[0] * dim, dx])
             if any(s <= 0 for s in shape):
                 continue
@@ -188,6 +194,8 @@ def gen_calls(rng, lat, lspec, quick):
             if i + 1 > jmax:
                 continue
             j = rng.randint(i + 1, min(jmax, i + 3))
+            if nn_only:
+                j = i + 1
             ops = oc.pick_ops(rng, [mps_sites[i], mps_sites[j % N]])
             # bosonic operators with an explicit string; the string must exist on the sites between
             if any(mps_sites[k % N].op_needs_JW(o) for k, o in zip((i, j), ops)):
@@ -265,8 +273,15 @@ def gen_calls(rng, lat, lspec, quick):
 def gen_case(rng, quick=True):
     from harness import c10_model as cm
     max_dim = 300 if quick else 1100
+    # a fifth of the cases: nearest-neighbour chains with fields (uniform or site dependent), mostly infinite with unit cells
+    # of 1-3 sites: the bond operators, the MPO rebuilt from them and the bond energies are representations as well
+    nn_only = rng.random() < 0.2
     for _ in range(100):
         lspec, nu = gen_lattice(rng)
+        if nn_only:
+            inf = rng.random() < 0.75
+            lspec, nu = {'cls': 'Chain', 'Ls': [rng.randint(1, 3) if inf else rng.randint(2, 6)],
+                         'bc_MPS': 'infinite' if inf else 'finite', 'bc': ['periodic' if inf else 'open']}, 1
         n_sites = int(np.prod(lspec['Ls'])) * nu
         specs, common = gen_sites(rng, nu, n_sites if lspec['bc_MPS'] == 'finite' else n_sites * 2, max_dim)
         window = 1
@@ -283,7 +298,9 @@ def gen_case(rng, quick=True):
             continue
         if lat.N_sites < 2 and lspec['bc_MPS'] == 'finite':
             continue
-        calls = gen_calls(rng, lat, lspec, quick)
+        calls = gen_calls(rng, lat, lspec, quick, nn_only=nn_only)
+        if nn_only:
+            case['nn_only'] = True
         # a coupling that wraps around a periodic direction of length 1 onto its own site is rejected by
         # add_coupling_term ('need i < j'): not a valid input, drop such calls
         good = []
